@@ -116,7 +116,8 @@ def run(chk):
                              "reject-only"))
         arrs = [("NotArray", "list", lambda w: probe[:, :w].tolist())] + \
                [(f"(Arr {w})", f"arr{w}", lambda w_, w=w: probe[:, :w]) for w in (1, 3, 4, 5, nf)] + \
-               [(f"(Arr {w})", f"vec{w}", lambda w_, w=w: probe[0, :w]) for w in (4, 5, nf)]
+               [(f"(Arr {w})", f"vec{w}", lambda w_, w=w: probe[0, :w]) for w in (4, 5, nf)] + \
+               [("BadRank", "arr0d", lambda w: np.array(3.0)), ("BadRank", "arr3d", lambda w: np.zeros((2, 3, w)))]
         for cq, lab, mk in arrs:
             rows.append((f"SSPOR[{stage}].predict({lab})", f"g_sspor_predict {fitted} {ns} {cq}",
                          lambda stage=stage, mk=mk, ns=ns: sspor_at(stage).predict(mk(ns)), True))
@@ -308,6 +309,11 @@ def run(chk):
                                       lambda m, v=v, thr=thr, with_xy=with_xy: m.update_sensors(n_sensors=pyv(v), threshold=thr,
                                                                                                 xy=(X, y) if with_xy else None, quiet=True),
                                       lambda m: observe_sspoc(m, probe))
+        # rejected for another reason than the count: refit data of the wrong width, an aggregation function that cannot be called that way
+        rejected_noop(f"SSPOC.update_sensors(4, xy of the wrong width)@{stage}", lambda stage=stage: sspoc_at(stage),
+                      lambda m: m.update_sensors(n_sensors=4, xy=(X[:, :2], y), quiet=True), lambda m: observe_sspoc(m, probe))
+        rejected_noop(f"SSPOC.update_sensors(2, method=np.percentile)@3", lambda: sspoc_at(3),
+                      lambda m: m.update_sensors(n_sensors=2, method=np.percentile, quiet=True), lambda m: observe_sspoc(m, probe))
         for v in values(nrows):
             rejected_noop(f"SSPOC.update_n_basis_modes({v})@{stage}", lambda stage=stage: sspoc_at(stage),
                           lambda m, v=v: m.update_n_basis_modes(pyv(v), (X[:4], y[:4]), quiet=True), lambda m: observe_sspoc(m, probe))
